@@ -149,7 +149,7 @@ func extractPacket(b []byte, depth int, ex *extracted) {
 		}
 	case wire.CompoundMsg:
 		parts, _, err := wire.SplitCompound(body)
-		if err != nil {
+		if _, trailing := err.(*wire.TrailingError); err != nil && !trailing {
 			return
 		}
 		for _, p := range parts {
